@@ -19,7 +19,42 @@ M64 = (1 << 64) - 1
 
 # result lists that have a C spelling with the same register assignment as MIR's
 RESULTS = [[], ["i64"], ["i32"], ["u8"], ["i16"], ["u32"], ["p"], ["d"], ["f"], ["ld"], ["i64", "i64"], ["i64", "d"],
-           ["d", "i64"], ["d", "d"], ["ld", "ld"]]
+           ["d", "i64"], ["d", "d"], ["ld", "ld"], ["f", "d"], ["d", "f"], ["i64", "f"], ["f", "i64"]]
+# (f,f) and pairs of narrow integers pack into one eightbyte of a C struct, longer lists have no C
+# spelling at all: such callees are entered with a `void` prototype and judged on the result registers.
+
+
+def res_class(rt):
+    return {"f": "sse", "d": "sse", "ld": "x87"}.get(rt, "int")
+
+
+def rand_res(rng):
+    """any result list x86-64 MIR accepts: at most two integer, two SSE and two x87 results"""
+    if rng.chance(1, 2):
+        return list(rng.choice(RESULTS))
+    n, out, cnt = rng.below(7), [], {"int": 0, "sse": 0, "x87": 0}
+    for _ in range(n):
+        rt = rng.choice(["i64", "i32", "u16", "p", "f", "d", "f", "d", "ld"])
+        if cnt[res_class(rt)] < 2:
+            cnt[res_class(rt)] += 1
+            out.append(rt)
+    return out
+
+
+def all_small_res():
+    """every pair and triple of result classes (i64, f, d, ld) MIR accepts"""
+    import itertools
+    out = []
+    for n in (2, 3):
+        for combo in itertools.product(["i64", "f", "d", "ld"], repeat=n):
+            if all(sum(1 for x in combo if res_class(x) == c) <= 2 for c in ("int", "sse", "x87")):
+                out.append(list(combo))
+    return out
+
+
+def rawres(case):
+    """True when the caller cannot be typed in C: the trampoline records (and pops) the result registers"""
+    return case.get("res", []) not in RESULTS
 
 
 def tok(t):
@@ -181,6 +216,7 @@ def mir_text(case):
     loc += [f"i64:v{j}" for j in range(K)] + [f"d:dv{j}" for j in range(KD)]
     loc += [f"i64:ri{j}" for j in range(len(res))] + [f"d:rd{j}" for j in range(len(res))]
     loc += [f"f:rf{j}" for j in range(len(res))] + [f"ld:rl{j}" for j in range(len(res))]
+    loc += ["ld:la", "ld:lb", "ld:lc", "ld:le", "i64:lcnt", "i64:lacc", "d:ldd", "f:lff"]
     L.append("local " + ", ".join(loc))
     L.append("mov o, c06_out")
     L.append("mov tb, c06_tab")
@@ -239,6 +275,8 @@ def mir_text(case):
             L.append("mov t, u8:-1(t)")
             L.append("add t2, t2, t")
         L.append("mov i64:24(o), t2")
+    if case.get("ldops"):
+        L += ld_ops_text(case["ldops"])
     if not case.get("dump_first"):
         for i, t in enumerate(sig):
             dump_value(L, t, f"p{i}", HDR + SLOT * i, probe)
@@ -251,8 +289,14 @@ def mir_text(case):
         L.append("mov i64:40(o), t")
         L.append("mov t, i64:16(va)")
         L.append("mov i64:48(o), t")
+        skip = set(case.get("skip", []))
         for j, t in enumerate(tail):
             off = HDR + SLOT * (len(sig) + j)
+            if j in skip and t[0] != "blk":
+                # fetched only to advance the va_list: the result is never used
+                mt = {"i": t[1] if t[0] == "i" and t[1] != "p" else "i64"}.get(t[0], t[0])
+                L.append(f"va_arg a, va, {mt}:0")
+                continue
             if t[0] == "blk":
                 L.append(f"add a, o, {off}")
                 L.append(f"va_block_arg a, va, {t[2]}, {t[1]}")
@@ -285,6 +329,54 @@ def mir_text(case):
             f"f: func {head}\n{body}\n  endfunc\n  endmodule\n")
 
 
+LD_PAIRS = [("la", "lb"), ("lb", "la"), ("la", "la")]
+LD_CMP = {"eq": lambda x, y: x == y, "ne": lambda x, y: x != y, "lt": lambda x, y: x < y,
+          "le": lambda x, y: x <= y, "gt": lambda x, y: x > y, "ge": lambda x, y: x >= y}
+
+
+def ld_ops_text(n):
+    """a loop of n iterations executing every long double insn, every compare and every branch with both
+    outcomes; the checksum goes to 64(o).  Values are small integers, so every step is exact."""
+    L = ["mov lcnt, 0", "mov lacc, 0", "i2ld la, 4", "i2ld lb, 8", "lloop:"]
+    L += ["ldadd lc, la, lb", "ldsub lc, lc, la", "ldmul lc, lc, lb", "lddiv lc, lc, la", "ldneg lc, lc",
+          "ld2i t, lc", "add lacc, lacc, t",
+          "ld2d ldd, lc", "d2i t, ldd", "add lacc, lacc, t",
+          "ld2f lff, lc", "f2i t, lff", "add lacc, lacc, t",
+          "d2ld le, ldd", "ld2i t, le", "add lacc, lacc, t",
+          "f2ld le, lff", "ld2i t, le", "add lacc, lacc, t",
+          "ui2ld le, lcnt", "ld2i t, le", "add lacc, lacc, t",
+          "ldmov ld:80(o), lc", "ldmov le, ld:80(o)", "ldmov lc, le", "ld2i t, lc", "add lacc, lacc, t"]
+    w = 1
+    for (x, y) in LD_PAIRS:
+        for op in LD_CMP:
+            L += [f"ld{op} t, {x}, {y}", f"mul t, t, {w}", "add lacc, lacc, t"]
+            w += 1
+    for (x, y) in LD_PAIRS:
+        for op in LD_CMP:
+            L += [f"ldb{op} ll{w}, {x}, {y}", f"add lacc, lacc, {1000 + w}", f"ll{w}:"]
+            w += 1
+    L += ["add lcnt, lcnt, 1", f"blt lloop, lcnt, {n}", "mov i64:64(o), lacc"]
+    return L
+
+
+def ld_ops_expected(n):
+    vals = {"la": 4, "lb": 8}
+    acc = 0
+    for it in range(n):
+        acc += -16 * 5 + it + -16
+        w = 1
+        for (x, y) in LD_PAIRS:
+            for op, f in LD_CMP.items():
+                acc += w * int(f(vals[x], vals[y]))
+                w += 1
+        for (x, y) in LD_PAIRS:
+            for op, f in LD_CMP.items():
+                if not f(vals[x], vals[y]):
+                    acc += 1000 + w
+                w += 1
+    return acc & M64
+
+
 # ------------------------------------------------------------------------------------------ expected
 def expected_chk(case, tab):
     K, chk = case.get("K", 0), 0
@@ -313,8 +405,13 @@ def expected_out(case, tab):
     if case.get("KD"):
         s = sum(struct.unpack("<d", struct.pack("<Q", tab[32 + j]))[0] for j in range(case["KD"]))
         exp.append((56, struct.pack("<d", s), "sum of doubles live across calls"))
+    if case.get("ldops"):
+        exp.append((64, struct.pack("<Q", ld_ops_expected(case["ldops"])), "checksum of the long double instruction loop"))
     allt = list(case["sig"]) + list(case.get("tail", []))
+    skip = set(len(case["sig"]) + j for j in case.get("skip", []) if case["tail"][j][0] != "blk")
     for i, (t, v) in enumerate(zip(allt, case["vals"])):
+        if i in skip:
+            continue
         what = f"param {i} ({tok(t)})" if i < len(case["sig"]) else f"variadic {i - len(case['sig'])} ({tok(t)})"
         if t[0] == "i":
             raw = int.from_bytes(v, "little")
@@ -324,8 +421,43 @@ def expected_out(case, tab):
     return exp
 
 
+def result_values(case, tab):
+    res, chk = case.get("res", []), expected_chk(case, tab)
+    vals = []
+    for j, rt in enumerate(res):
+        t = (chk + j + 1) & M64
+        if rt == "d":
+            vals.append(("d", struct.pack("<d", float(t & 1023))))
+        elif rt == "f":
+            vals.append(("f", struct.pack("<f", float(t & 1023))))
+        elif rt == "ld":
+            vals.append(("ld", ld_bytes(t & 1023)))
+        else:
+            vals.append((rt, struct.pack("<Q", t)[:WIDTH[rt]]))
+    return vals
+
+
+def expected_ret_regs(case, tab):
+    """list of (offset in the trampoline's result-register record, bytes, register name):
+    record layout rax@0 rdx@8 xmm0@16 xmm1@32 st0@48 st1@64 (st only when the trampoline pops them)"""
+    cnt, out = {"int": 0, "sse": 0, "x87": 0}, []
+    for j, (rt, b) in enumerate(result_values(case, tab)):
+        c = res_class(rt)
+        n = cnt[c]
+        cnt[c] += 1
+        if c == "int":
+            out.append((8 * n, b, f"result {j} ({rt}) in {'rax' if n == 0 else 'rdx'}"))
+        elif c == "sse":
+            out.append((16 + 16 * n, b, f"result {j} ({rt}) in xmm{n}"))
+        elif rawres(case):
+            out.append((48 + 16 * n, b, f"result {j} (ld) in st{n}"))
+    return out
+
+
 def expected_res(case, tab):
-    """list of (offset in res buffer, bytes)"""
+    """list of (offset in res buffer, bytes) for a C-typed caller"""
+    if rawres(case):
+        return []
     res, chk = case.get("res", []), expected_chk(case, tab)
     vals = []
     for j, rt in enumerate(res):
@@ -414,6 +546,8 @@ def c_caller(case):
         args.append(f"a{i}")
         if i < len(sig):
             protos.append(ct)
+    if rawres(case):
+        res = []
     rt = c_ret_type(res, typedefs)
     if case["vararg"]:
         protos.append("...")
@@ -439,7 +573,7 @@ def batch_c(cases, tab):
     out.append("};")
     out.append(f"int c06_ncases = {len(cases)};")
     out.append("int c06_out_lens[] = {" + ",".join(str(out_len(c)) for c in cases) + "};")
-    out.append("int c06_flags[] = {" + ",".join(str(1 if c["vararg"] else 0) for c in cases) + "};")
+    out.append("int c06_flags[] = {" + ",".join(str((1 if c["vararg"] else 0) | (2 if rawres(c) else 0)) for c in cases) + "};")
     out.append("uint64_t c06_tab_init[64] = {" + ",".join(hex(x) + "ull" for x in tab) + "};")
     return "\n".join(out) + "\n"
 
